@@ -15,7 +15,7 @@ BOUNDS = {
              "combinations; state / envelope / composite entry points",
     "thorough": "as quick plus Matrix level at every position",
 }
-OPTS = {"quick": {"max_paths": 64, "timeout_ms": 10000, "case_timeout_s": 900, "exact_close": True},
+OPTS = {"quick": {"max_paths": 160, "timeout_ms": 10000, "case_timeout_s": 900, "exact_close": True},
         "thorough": {"max_paths": 128, "timeout_ms": 30000, "case_timeout_s": 3000, "exact_close": True}}
 
 cases = mc.cases
